@@ -516,7 +516,7 @@ def check_packer(ctx):
     def par(n):
         return fresh_obj("par", n=n)
     scenarios = []
-    for sig_order in ([("v", 1), ("p", 2), ("v", 3), ("p", 1)], [("v", 2), ("v", 1)], [("p", 1), ("v", 1)], []):
+    for sig_order in ([("v", 1), ("p", 2), ("v", 3), ("p", 1)], [("v", 2), ("v", 1)], [("p", 1), ("v", 1)], [("p", 2)], [("p", 1), ("p", 3)], [("v", 1)], []):
         sizes = {"": [2], "control": [1], "control+": [3, 1], "bspline": [s_ for k_, s_ in sig_order if k_ == "p"]}
         n_p = sum(sum(v) for g, v in sizes.items() if g in want_kinds)
         nv = 4
